@@ -16,6 +16,13 @@ def run_case(c):
         # the same chord stamped into the track again as copies (NoteContainer built from another container, and '+')
         from mingus.containers import NoteContainer
         src = [e[2] for b in t.bars for e in b.bar if e[2] is not None and len(e[2]) > 0][:2]
+        # one list of names handed to the track twice (the caller's list stays the caller's; each entry is its own chord)
+        try:
+            same = ["D-4", "F-4", "A-4"]
+            t.add_notes(same, 4)
+            t.add_notes(same, 4)
+        except Exception:
+            pass
         # a chord that doubles names at the octave (what holds for a name holds for each of its notes)
         try:
             t.add_notes(NoteContainer(["A-2", "A-3", "A-4", "B-3", "B-4", "C-3", "C-5"]), 4)
